@@ -158,6 +158,26 @@ pub fn expected(blocks: &[RBlock]) -> Expected {
         match elem {
             None => out.skipped.push((w.name.clone(), "location kind outside the oracle")),
             Some((pts, n, kind)) => {
+                // windows on walls placed by their own polygon in canonical position (outline starts at the wall origin,
+                // first edge along the wall's x axis): offsets are wall coordinates and may be negative where the outline
+                // reaches left of / below its first vertex
+                if kind == "own-polygon" {
+                    if let Some(poly) = &own_poly {
+                        let canonical = poly.len() >= 3 && poly[0][0].abs() < 1e-9 && poly[0][1].abs() < 1e-9 && poly[1][1].abs() < 1e-9 && poly[1][0] > 0.0;
+                        if canonical {
+                            let az = w.num("AZIMUTH").unwrap_or(0.0);
+                            let tilt = w.num("TILT").unwrap_or(if w.btype == "ROOF" || loc.as_deref() == Some("TOP") { 0.0 } else { 90.0 });
+                            let (ax, ay, an) = bdl_frame(az, tilt);
+                            for win in blocks.iter().filter(|b| b.btype == "WINDOW" && b.parent.as_deref() == Some(w.name.as_str())) {
+                                if let (Some(x), Some(y), Some(ww), Some(wh)) = (win.num("X"), win.num("Y"), win.num("WIDTH"), win.num("HEIGHT")) {
+                                    let sb = win.num("SETBACK").unwrap_or(0.0);
+                                    let c = |dx: f64, dy: f64| -> V3 { to_global(add(add(add([wx, wy, wz], scale(ax, dx)), scale(ay, dy)), scale(an, -sb))) };
+                                    out.windows.push(ExpWindow { name: win.name.clone(), wall: w.name.clone(), pts: vec![c(x, y), c(x + ww, y), c(x + ww, y + wh), c(x, y + wh)], width: ww, height: wh, setback: sb });
+                                }
+                            }
+                        }
+                    }
+                }
                 let g: Vec<V3> = pts.iter().map(|p| to_global(*p)).collect();
                 let lever = lever_of(&pts);
                 out.walls.push(ExpElem { name: w.name.clone(), area: poly_area3(&pts), pts: g, normal: Some(unit(dir_global(n))), kind, lever });
